@@ -131,9 +131,10 @@ theorem decoders_agree_bytes {σ τ : Type} (D : LineDecoder σ) (E : LineDecode
   | mk r s1 =>
     cases r with
     | error k => rfl
-    | ok enc =>
+    | ok ep =>
+      obtain ⟨enc, pfx⟩ := ep
       dsimp only
-      cases readAll enc s1 with
+      cases readAll enc (pushRest pfx s1) with
       | mk ls e =>
         cases e with
         | some k => rfl
